@@ -303,7 +303,7 @@ fn record(rep: &mut Report, input: &[(u64, bool)], capacity: usize, small: bool)
 pub fn run(tier: Tier, shard: Shard, rep: &mut Report) {
     let max_n: usize = if tier == Tier::Quick { 7 } else { 8 };
     rep.rule = format!(
-        "every sequence of n <= {} entries over 4 ranks x 2 access flags x every capacity 0..=n_max+1, \
+        "every sequence of n <= {} entries over 4 ranks x 2 access flags x every capacity 0..=n_max+1 (and, for n <= 4, capacities isize::MAX-1 .. isize::MAX+1, usize::MAX-1, usize::MAX), \
          fed to the real second_chance::Update::new and compared with the classical clock queue under \
          some order of equal ranks (input order, then the order read off the output, then brute force over \
          tie-group permutations); plus enumerated large families (thorough). Non-trivial = n > capacity \
@@ -330,6 +330,13 @@ pub fn run(tier: Tier, shard: Shard, rep: &mut Report) {
                     (d / 2, d % 2 == 1)
                 })
                 .collect();
+            // capacities around the signed/unsigned boundary too ("unbounded" is usize::MAX in the crate itself)
+            let huge = [isize::MAX as usize - 1, isize::MAX as usize, isize::MAX as usize + 1, usize::MAX - 1, usize::MAX];
+            if n <= 4 {
+                for &capacity in &huge {
+                    record(rep, &input, capacity, true);
+                }
+            }
             for capacity in 0..=(max_n + 1) {
                 record(rep, &input, capacity, true);
                 if seq_no % 100_003 == 0 && capacity == n.saturating_sub(2) {
